@@ -292,6 +292,37 @@ Proof.
   - apply new_ptier_ok; [assumption|assumption|assumption|lia].
 Qed.
 
+Lemma new_ptier_span name l mn mx x :
+  new_ptier name l (Some mn) (Some mx) = Ok x -> mn <= mx ->
+  (forall p, In p l -> mn <= ptime p <= mx) -> pmin x = mn /\ pmax x = mx.
+Proof.
+  intros E Hmm Hb. unfold new_ptier in E. simpl opt_list in E.
+  set (all := map ptime (homog_p l) ++ [mn] ++ [mx]) in E.
+  assert (forall y, In y all -> mn <= y <= mx) as Hall.
+  { intros y Hy. unfold all in Hy. apply in_app_or in Hy as [Hy|[<-|[<-|[]]]]; try lia.
+    apply in_map_iff in Hy as (p & <- & Hp). unfold homog_p in Hp. apply isort_In in Hp.
+    apply in_map_iff in Hp as (q & <- & Hq). simpl. apply Hb, Hq. }
+  assert (In mn all) as Imn by (unfold all; apply in_or_app; right; left; reflexivity).
+  assert (In mx all) as Imx by (unfold all; apply in_or_app; right; right; left; reflexivity).
+  destruct (zmin_list all) as [a|] eqn:Ea; [|discriminate].
+  destruct (zmax_list all) as [b|] eqn:Eb; [|discriminate]. injection E as <-. simpl.
+  apply zmin_list_spec in Ea as [A1 A2]. apply zmax_list_spec in Eb as [B1 B2].
+  rewrite Forall_forall in A2, B2.
+  pose proof (A2 mn Imn). pose proof (B2 mx Imx). pose proof (Hall a A1). pose proof (Hall b B1). lia.
+Qed.
+
+Theorem crop_p_span t a b r x :
+  crop_p t a b r = Ok x ->
+  pmin x = (if r then 0 else a) /\ pmax x = (if r then b - a else b).
+Proof.
+  unfold crop_p. destruct (Z.leb_spec b a); [discriminate|]. destruct r; intro E.
+  - eapply new_ptier_span; [exact E|lia|].
+    intros p Hp. apply in_map_iff in Hp as (q & <- & Hq). apply filter_In in Hq as [_ Hw].
+    unfold in_windowb in Hw. simpl. lia.
+  - eapply new_ptier_span; [exact E|lia|].
+    intros p Hp. apply filter_In in Hp as [_ Hw]. unfold in_windowb in Hw. lia.
+Qed.
+
 Theorem crop_p_members t a b p :
   In p (filter (in_windowb a b) (pents t)) <-> In p (pents t) /\ a <= ptime p <= b.
 Proof. rewrite filter_In. unfold in_windowb. intuition lia. Qed.
